@@ -165,12 +165,13 @@ def rebuild_repo(log=None):
 # ----------------------------------------------------------------------------------------------
 # Coq
 # ----------------------------------------------------------------------------------------------
-def coq_make(timeout=3000):
-    """Full .vo build of the hand-written development (no -vos), under a lock."""
+def coq_make(targets=(), timeout=3000):
+    """Full .vo build (no -vos) of the hand-written development, or of the given .vo targets and
+    everything they depend on, under a lock."""
     os.makedirs(os.path.join(COQ, "Gen"), exist_ok=True)
     with open(os.path.join(COQ, ".verif.lock"), "w") as lock:
         fcntl.flock(lock, fcntl.LOCK_EX)
-        p = subprocess.run(["bash", os.path.join(VERIF, "bin", "coqbuild")], cwd=COQ,
+        p = subprocess.run(["bash", os.path.join(VERIF, "bin", "coqbuild")] + list(targets), cwd=COQ,
                            stdout=subprocess.PIPE, stderr=subprocess.STDOUT, text=True, timeout=timeout)
     return p.returncode == 0, p.stdout
 
@@ -296,11 +297,13 @@ class Ctx:
         return ok
 
     # -- step 2: proofs --------------------------------------------------------------------------
-    def proofs(self, module, theorems, allowed_axioms=()):
-        """Build the development and re-check, for the property file `module`
-        (e.g. 'Properties.C20'), that every theorem exists and which axioms it rests on."""
-        ok, out = coq_make()
-        self.obligation("make coq/ (full .vo build)", "build", ok, out)
+    def proofs(self, module, theorems, allowed_axioms=(), extra_modules=()):
+        """Build (full .vo) the property file `module` (e.g. 'Properties.C20'), everything it depends
+        on and `extra_modules` (e.g. the comparator 'Model.C20_Check'), then re-check that every
+        theorem exists and which axioms it rests on (Print Assumptions)."""
+        targets = [m.replace(".", "/") + ".vo" for m in (module,) + tuple(extra_modules)]
+        ok, out = coq_make(targets)
+        self.obligation("make %s (full .vo build)" % " ".join(targets), "build", ok, out)
         if not ok:
             self.log("coq build FAILED\n" + out[-3000:])
             return False
